@@ -33,6 +33,12 @@ ErrUnexpected(p, c) == [kind |-> "unexpected", pos |-> p, ch |-> c]
 ErrSurr(variant, units, lo, hi) ==
    [kind |-> "surrogate", variant |-> variant, units |-> units, region |-> <<lo, hi>>]
 
+\* what "a span lying inside the offending escape sequence(s)" means for a reported span [a, b) and a region [lo, hi):
+\* contained in it, and starting at a position of it - an empty span at hi points at whatever follows the escape
+SpanInside(span, region) ==
+   /\ region[1] <= span[1] /\ span[1] <= span[2] /\ span[2] <= region[2]
+   /\ span[1] < region[2]
+
 NoFrame == [kind |-> "none"]
 
 Init == [mode |-> "value",   \* value arr0 obj0 key colon after lit num str done err
